@@ -17,6 +17,8 @@ import (
 	"testing/synctest"
 	"time"
 
+	"github.com/quickfixgo/quickfix"
+
 	"verif/internal/sessmc"
 )
 
@@ -70,6 +72,11 @@ func runTrace(t *testing.T, it conformItem, loop bool) (log []string, key string
 			// and two timers due at the same instant fire in an unspecified order
 			dueS, dueP := w.ArmS && w.DeadS <= w.VNow, w.ArmP && w.DeadP <= w.VNow
 			if (dueS && dueP) || ((dueS || dueP) && e.K != "to") {
+				return nil, "", errNotCanonical
+			}
+			// the trace was explored with the flush as an event of its own; replayed with the flush served at once a
+			// transmission may have re-armed the timer, so that the timer event of the trace is not due here
+			if e.K == "to" && !((e.To == quickfix.VerifNeedHeartbeat && dueS) || (e.To == quickfix.VerifPeerTimeout && dueP)) {
 				return nil, "", errNotCanonical
 			}
 		}
